@@ -139,7 +139,9 @@ def make_case(family, i, rng, tier):
 
 def _scenario(case):
     mod = _base(case['base'])
-    out = mod.build(case['bcase'])
+    bcase = dict(case['bcase'])
+    bcase.pop('prelude', None)      # one connection: its stream is re-cut
+    out = mod.build(bcase)
     sc = out[0] if isinstance(out, tuple) else out
     sc = copy.deepcopy(sc)
     conn = sc.setdefault('connect', {})
